@@ -12,7 +12,7 @@
    about SHA-256 or JSON. *)
 From Coq Require Import List NArith Bool Permutation.
 Import ListNotations.
-From Oras Require Import Base.Prelude Generated.GC07 Model.GraphMem Model.GraphStore Model.IndexLTS Model.Links Proofs.GraphMem Proofs.Links Proofs.GraphStore Proofs.IndexLTS.
+From Oras Require Import Base.Prelude Generated.GC07 Model.GraphMem Model.GraphStore Model.IndexLTS Model.StoreLTS Model.Links Proofs.GraphMem Proofs.StoreLTS Proofs.Links Proofs.GraphStore Proofs.IndexLTS.
 
 (* The invariants written in the comments of graph.Memory hold after every history of
    Index / Remove / IndexAll / fresh-graph operations, with content appearing in and
@@ -375,6 +375,47 @@ Example C07_save_index_atomic_example :
   exists s', lrun true (linit [] [ActAdd 1%N; ActAdd 2%N]) [0; 0; 1; 1; 1; 0]%nat = Some s' /\
              all_done s' = true /\ l_disk s' = [2; 1]%N.
 Proof. exact save_index_atomic_example. Qed.
+
+(* ---- the whole store under concurrency (Model/StoreLTS.v) ----
+   Push = storage.Push, graph.Index, tag by digest, saveIndex; Tag = Exists, tag by digest, tag
+   by name, saveIndex; Untag = untag, saveIndex: each an atomic step; Delete / GC / reopen /
+   foreign index run exclusively (Store.sync.Lock).  For EVERY interleaving of these steps
+   (any number of operations, after any earlier history [ops0]), once every operation has
+   returned, Predecessors(n) is exactly the stored nodes referencing n ... *)
+Theorem C07_concurrent_quiescent_exact :
+  forall (content : node -> list node) (isman : node -> bool) (rank : node -> nat),
+    (forall p, content p <> [] -> isman p = true) ->
+    (forall p c, In c (content p) -> (rank c < rank p)%nat) ->
+    forall fuel ops0 cops trace st' n,
+      let s0 := fst (orun true true true content isman fuel empty_store ops0) in
+      crun content isman fuel (cinit s0 cops) trace = Some st' -> call_done st' = true ->
+      NoDup (predecessors (o_graph (c_s st')) n) /\
+      forall p, In p (predecessors (o_graph (c_s st')) n) <->
+                In p (o_blobs (c_s st')) /\ In n (content p).
+Proof. exact concurrent_quiescent_exact. Qed.
+Print Assumptions C07_concurrent_quiescent_exact.
+
+(* ... and a reopen of the layout at that point changes no answer.  (This discharges, for
+   Push/Tag/Untag, the hypothesis "every live manifest has its resolver entry" that
+   C07_concurrent_save_then_reload assumes.) *)
+Theorem C07_concurrent_quiescent_reopen :
+  forall (content : node -> list node) (isman : node -> bool) (rank : node -> nat),
+    (forall p, content p <> [] -> isman p = true) ->
+    (forall p c, In c (content p) -> (rank c < rank p)%nat) ->
+    forall fuel ops0 cops trace st' s'',
+      let s0 := fst (orun true true true content isman fuel empty_store ops0) in
+      crun content isman fuel (cinit s0 cops) trace = Some st' -> call_done st' = true ->
+      ostep true true true content isman fuel (c_s st') PReopen = (s'', true) ->
+      o_blobs s'' = o_blobs (c_s st') /\
+      forall n, Permutation (predecessors (o_graph s'') n) (predecessors (o_graph (c_s st')) n).
+Proof. exact concurrent_quiescent_reopen. Qed.
+Print Assumptions C07_concurrent_quiescent_reopen.
+
+Example C07_concurrent_example :
+  exists st', crun (ctab lts_ct) lts_isman 50 (cinit empty_store lts_ops) lts_trace = Some st' /\
+              call_done st' = true /\ o_blobs (c_s st') = [2; 0]%N /\
+              predecessors (o_graph (c_s st')) 0%N = [2%N].
+Proof. exact lts_example. Qed.
 
 (* IndexAll / loadIndex / gcIndex terminate: for every finite universe closed under
    [content] and containing the roots (any shape, cycles included) some fuel completes
